@@ -149,7 +149,68 @@ def c01():
                              'more than one simultaneously symbolic key on a non-empty tree, and byte-string keys are outside these queries.')
 
 
-REGISTRY = {'C01': c01, 'C07': c07, 'C11': c11, 'C12': c12, 'C15': c15}
+SCAN_SHAPES = {  # name -> descent iterations (inodes on the deepest path + leaf)
+    'leaf': 1, 'i4_3': 2, 'i16_5': 2, '2lvl': 3, '3lvl': 4, 'fall': 4, 'fall2': 3, 'sparse': 2}
+SCAN_STUBS = dict(stubs=['tag_ptr', 'node_type', 'node_ptr', 'lib_abort', 'keybuf_noop'], noinline=['@_ZN5unodb6detail10key_buffer(4push|3pop)E'])
+
+
+def scan_unit(kind='db', config='base', mnt=2):
+    return U('scan.cpp', config, defines=['DBKIND=%d' % DBKINDS[kind], 'UNODB_DETAIL_VERIF_FIXED_ITER_STACK=6'], max_node_type=mnt, **SCAN_STUBS)
+
+
+SCAN_N = {'leaf': 1, 'i4_3': 3, 'i16_5': 5, '2lvl': 5, '3lvl': 5, 'fall': 5, 'fall2': 3, 'sparse': 3}
+
+
+def scan_lb(d, n=8):
+    return [('::(get|insert|remove)_internal', d + 1), (r'iterator::(try_)?(left_most|right_most)_traversal', d + 1), (r'iterator::(try_)?(next|prior|seek)', d + 2),
+            (r'db<.*>::scan(_from|_range)?<', n + 2), (r'^void run_s', max(n + 2, 10)), (r'^(bool visit|void check|unsigned long it_key)', 10)]
+
+
+def scan_queries(kind='db', config='base', tier_all=None):
+    qs = []
+    sfx = '' if (kind, config) == ('db', 'base') else '-%s-%s' % (kind, config)
+    u = scan_unit(kind, config)
+    T = lambda t: tier_all or t
+    qs.append(Query('scan-empty' + sfx, u, 'scan_empty', unwind=10, flags=['--slice-formula'], tier=T('quick'), about='all five scan forms on the empty index, symbolic bounds'))
+    for name, d in SCAN_SHAPES.items():
+        for mode, what in (('scan_fwd', 'scan(fwd)'), ('scan_rev', 'scan(rev)')):
+            qs.append(Query('%s_%s%s' % (mode, name, sfx), u, '%s_%s' % (mode, name), unwind=10, flags=['--slice-formula'], loop_bounds=scan_lb(d, SCAN_N[name]), tier=T('quick'),
+                            about='%s over concrete tree "%s", symbolic halting position (1..n+1)' % (what, name), bounds={'tree': name, 'symbolic': 'halt position'}))
+        for mode, what, heavy in (('seek_fwd', 'seek(k, fwd) on the iterator', 1), ('seek_rev', 'seek(k, rev)', 1), ('seek_fwd_step', 'seek(k,fwd) then next()', 2),
+                                  ('seek_rev_step', 'seek(k,rev) then prior()', 2), ('from_fwd', 'scan_from(k, fwd) with symbolic halt', 3),
+                                  ('from_rev', 'scan_from(k, rev) with symbolic halt', 3), ('range', 'scan_range(a, b) with symbolic halt', 4)):
+            if kind == 'mutex' and mode.startswith('seek'):
+                continue
+            if name in ('3lvl', 'fall', '2lvl', 'i16_5') and heavy >= 2:
+                continue      # measured out of reach (SAT instance > 40 GB)
+            if name == 'fall' and heavy >= 1:
+                continue
+            tier = 'quick' if (name == 'leaf' and heavy <= 3) else 'thorough'
+            if heavy >= 3 and name not in ('leaf', 'i4_3'):
+                continue
+            qs.append(Query('%s_%s%s' % (mode, name, sfx), u, '%s_%s' % (mode, name), unwind=10, flags=['--slice-formula'], loop_bounds=scan_lb(d, SCAN_N[name]), tier=T(tier),
+                            about='%s over concrete tree "%s" with fully symbolic 64-bit bound(s)' % (what, name), bounds={'tree': name, 'symbolic': 'bound(s) 64-bit'},
+                            timeout=3400, mem_gb=40, weight=1 if tier == 'quick' else 4))
+    return qs
+
+
+def c02():
+    kc = U('keycmp.cpp')
+    qs = [Query('compare', kc, 'h_compare', unwind=12, about='compare() on two buffers of symbolic length <= 4, all bytes', bounds={'len_max': 4}),
+          Query('artkey-u64', kc, 'h_artkey_u64', unwind=12, about='art_key<uint64> cmp/operator[]/shift_right for all pairs of keys', bounds={'inputs': '2 x 64 bit'}),
+          Query('artkey-keyview', kc, 'h_artkey_kv', unwind=12, about='art_key<key_view> cmp for byte strings of length 1..4 in two distinct buffers', bounds={'len_max': 4})]
+    qs += scan_queries('db', 'base')
+    return Check('C02', 'model_checking', qs,
+                 assumptions=['iterators are backed by the guarded hook UNODB_DETAIL_VERIF_FIXED_ITER_STACK (fixed-capacity stack, capacity 6, overflow = abort = assertion) instead of std::stack<std::deque>',
+                              'iterator key_buffer push/pop are stubbed as no-ops: the buffer is write-only (get_key() reads the leaf) - checked by reading art.hpp:1345-1357',
+                              'switch cases on node types above I16 are replaced by assert(false) (checked cut)'],
+                 explanation='L1: comparison kernels for all inputs. L3: complete forward/reverse scans with a symbolic halting position on every catalogue shape (decided mostly by constant '
+                             'propagation, the halt position by SAT); seek / scan_from / scan_range with fully symbolic 64-bit bounds on the shapes where the SAT instance fits '
+                             '(root leaf in the quick tier; 3-leaf I4, the minimal fall-off-an-inner-node shape and others in the thorough tier). Outside: symbolic bounds on trees with more than '
+                             'two inode levels (instance > 40 GB), byte-string keys at tree level, mutex/OLC instantiations (see C13/C16).')
+
+
+REGISTRY = {'C02': c02, 'C01': c01, 'C07': c07, 'C11': c11, 'C12': c12, 'C15': c15}
 
 
 def get(pid):
